@@ -35,6 +35,7 @@ NAMES = [x for x in LABELS] + [f"{x}.{y}" for x in LABELS for y in LABELS] + \
         [f"{x}.{y}.{z}" for x in LABELS for y in LABELS for z in LABELS]
 IPS = ("10.8.1.5", "192.168.200.77", "172.16.0.1", "8.8.8.8")
 PROXY_HOST, PROXY_ADDR, PROXY_PORT = "proxy.sim.test", "10.7.0.1", 3128
+V6 = "2001:db8::7"  # an IPv6 literal target: ws://[2001:db8::7]/ ; in CONNECT and Host it is written with its brackets
 STATUSES = (200, 201, 204, 301, 400, 403, 407, 500, 502, 503)
 
 
@@ -89,6 +90,8 @@ def plan(tier, seed):
     items.append({"kind": "cidr", "exhaustive": "every IPv4 prefix length 0..32, containing and not containing, option and environment"})
     items.append({"kind": "status", "exhaustive": "every proxy reply status x scheme x auth"})
     items.append({"kind": "app", "exhaustive": "proxy by option / environment x credentials (none, user+password, user only) x exemption, through WebSocketApp.run_forever"})
+    items.append({"kind": "socks", "exhaustive": "proxy_type socks4/4a/5/5h (python_socks stand-in) x scheme x credentials x exemption list (option / environment) relations"})
+    items.append({"kind": "ipv6", "exhaustive": "IPv6 literal target x scheme x target port x credentials x no_proxy {none, *, other, itself} x api"})
     items.append({"kind": "portless", "exhaustive": "every proxy environment variable x proxy URL with / without port x target port"})
     items.append({"kind": "redirects", "exhaustive": "redirect from (scheme, host) to (scheme, host) x proxy by option / environment x exemption of either host"})
     n = 6000 if tier == "quick" else 480000
@@ -134,6 +137,25 @@ def expand(item, seed):
                 for url in (f"http://{PROXY_HOST}:{PROXY_PORT}", f"http://eu@{PROXY_HOST}:{PROXY_PORT}", f"http://eu:ep%40ss@{PROXY_HOST}:{PROXY_PORT}"):
                     yield _base(scheme=scheme, opt_proxy=False, env={var: url}, api="app")
                     yield _base(scheme=scheme, opt_proxy=False, env={var: url})
+    elif k == "socks":
+        for scheme in ("ws", "wss"):
+            for socks in ("socks4", "socks4a", "socks5", "socks5h"):
+                for auth in (None, ["user", "secret"]):
+                    for host, nps in (("a.b", (None, ["*"], ["a.b"], [".b"], [".a.b"], ["b"], ["x.b"])),
+                                      ("10.8.1.5", (None, ["10.8.1.5"], ["10.8.0.0/16"], ["10.9.0.0/16"]))):
+                        for np in nps:
+                            yield _base(scheme=scheme, host=host, opt_auth=auth, opt_no_proxy=np, socks=socks)
+                            if np is not None:
+                                yield _base(scheme=scheme, host=host, opt_auth=auth, env={"no_proxy": ",".join(np)}, socks=socks, api="app" if auth else None)
+    elif k == "ipv6":
+        for scheme in ("ws", "wss"):
+            for tp in (None, 8080):
+                for auth in (None, ["user", "secret"]):
+                    for np in (None, ["*"], ["a.b"], [V6]):
+                        for api in (None, "app"):
+                            yield _base(host=V6, scheme=scheme, opt_auth=auth, opt_no_proxy=np, target_port=tp, api=api)
+                yield _base(host=V6, scheme=scheme, opt_proxy=False, target_port=tp,
+                            env={("https_proxy" if scheme == "wss" else "http_proxy"): f"http://{PROXY_HOST}:{PROXY_PORT}"})
     elif k == "portless":
         for scheme in ("ws", "wss"):
             for var in ("http_proxy", "HTTP_PROXY", "https_proxy", "HTTPS_PROXY"):
@@ -210,15 +232,38 @@ def gen(rng):
         sc["status"] = 200
     elif rng.random() < 0.1:
         sc["target_port"] = rng.choice((8080, 8443, 81))
+    if sc["opt_proxy"] and not sc.get("redirect") and sc.get("status", 200) == 200 and rng.random() < 0.12:
+        sc["socks"] = rng.choice(("socks4", "socks4a", "socks5", "socks5h"))
+    if not sc.get("redirect") and rng.random() < 0.06 and not any("/" in e for e in (sc.get("opt_no_proxy") or [])):
+        sc["host"] = V6
     return sc
 
 
+STUB = ["optional package `python_socks` (sim/stubs_socks: which proxy it is asked to dial and for which destination is recorded, "
+        "the SOCKS negotiation itself is not modelled; only in the scenarios with proxy_type socks*)"]
+
+
 def run(sc, choices=None):
+    from .. import seams
+    seams.set_socks(bool(sc.get("socks")))
+    try:
+        return _run(sc, choices)
+    finally:
+        seams.set_socks(False)
+
+
+def _run(sc, choices=None):
     res = Result()
     try:
         scheme, host = sc["scheme"], sc["host"]
-        if scheme not in ("ws", "wss") or (host not in NAMES and not _is_ip(host)):
+        socks = sc.get("socks")
+        if socks is not None and (socks not in ("socks4", "socks4a", "socks5", "socks5h") or not sc.get("opt_proxy") or sc.get("redirect")
+                                  or int(sc.get("status", 200)) != 200):
+            raise InvalidScenario("socks: option-given proxy, no redirect")
+        if scheme not in ("ws", "wss") or (host not in NAMES and not _is_ip(host) and host != V6):
             raise InvalidScenario("scheme/host")
+        if host == V6 and (sc.get("redirect") or any("/" in e for e in (sc.get("opt_no_proxy") or []))):
+            raise InvalidScenario("IPv6 target: plain scenarios only")
         env = dict(sc.get("env", {}))
         for k in env:
             if k not in ("http_proxy", "HTTP_PROXY", "https_proxy", "HTTPS_PROXY", "no_proxy", "NO_PROXY"):
@@ -260,12 +305,20 @@ def run(sc, choices=None):
         return p
 
     def proxy(conn):
-        pp = ProxyPeer(w, {"status": status}, origin)
+        if socks:
+            from ..peers import SocksStubPeer
+            pp = SocksStubPeer(w, {}, origin)
+        else:
+            pp = ProxyPeer(w, {"status": status}, origin)
         proxy_peers.append(pp)
         return pp
 
-    origin_addr = host if _is_ip(host) else "10.9.0.1"
-    if not _is_ip(host):
+    uhost = f"[{host}]" if host == V6 else host  # the way the host is written in a URL / an authority
+    origin_addr = host if _is_ip(host) or host == V6 else "10.9.0.1"
+    if host == V6:
+        w.net.add_host(host, [(_rs.AF_INET6, origin_addr)])
+        res.probes["ipv6_literal_target"] = 1
+    elif not _is_ip(host):
         w.net.add_host(host, [(_rs.AF_INET, origin_addr)])
     w.net.listen(origin_addr, port, origin)
     w.net.add_host(PROXY_HOST, [(_rs.AF_INET, PROXY_ADDR)])
@@ -283,12 +336,14 @@ def run(sc, choices=None):
             kw["http_proxy_port"] = PROXY_PORT
             if auth:
                 kw["http_proxy_auth"] = tuple(auth)
+            if socks:
+                kw["proxy_type"] = socks
         if opt_np is not None:
             kw["http_no_proxy"] = list(opt_np)
         if tls:
             import ssl
             kw["sslopt"] = {"cert_reqs": ssl.CERT_NONE, "check_hostname": False}
-        url_ = f"{scheme}://{host}{':%d' % port if sc.get('target_port') is not None else ''}/res?x=1"
+        url_ = f"{scheme}://{uhost}{':%d' % port if sc.get('target_port') is not None else ''}/res?x=1"
         try:
             if sc.get("api") == "app":
                 # the same options through WebSocketApp.run_forever (which has its own defaults for them)
@@ -352,13 +407,33 @@ def run(sc, choices=None):
     elif via_proxy and dialled_ports[0] != want_pport:
         res.violate("proxy_dialled_on_wrong_port", "portless_proxy_url" if want_pport == 80 else "proxy_port",
                     f"{scheme}://{host} proxy {envp or (PROXY_HOST, PROXY_PORT)}: dialled port {dialled_ports[0]}, expected {want_pport}")
+    elif via_proxy and socks:
+        res.probes["via_socks_stand_in"] = 1
+        pp = proxy_peers[0] if proxy_peers else None
+        want_line = "SOCKS %s %s %d rdns=%s user=%s pass=%s" % ("SOCKS4" if socks.startswith("socks4") else "SOCKS5", host, port,
+                                                               socks in ("socks4a", "socks5h"), want_auth[0] if want_auth else None,
+                                                               want_auth[1] if want_auth else None)
+        if pp is None or pp.line != want_line:
+            res.violate("bad_connect_request", "socks", f"asked of python_socks: {None if pp is None else pp.line!r}, expected {want_line!r}")
+        elif outcome[0] != "ok":
+            res.violate("tunnel_not_used_after_200", "socks", f"outcome {outcome}")
+        else:
+            first = bytes(pp.after_connect[:4])
+            op = origin_peers[-1] if origin_peers else None
+            if tls and not (first[:1] == b"\x16" and first[1:2] == b"\x03"):
+                res.violate("no_tls_inside_tunnel", "socks", f"first bytes through the proxy {first!r}")
+            elif not tls and first != b"GET ":
+                res.violate("no_handshake_inside_tunnel", "socks", f"first bytes through the proxy {first!r}")
+            elif op is None or op.request is None or op.request["target"] != "/res?x=1" or \
+                    R.header_values(op.request, "Host") != [uhost if sc.get("target_port") is None else f"{uhost}:{port}"]:
+                res.violate("tunnel_handshake_not_addressed_to_origin", "socks", f"origin saw {None if op is None or op.request is None else (op.request['target'], R.header_values(op.request, 'Host'))}")
     elif via_proxy:
         pp = proxy_peers[0] if proxy_peers else None
         if pp is None or pp.request is None:
             res.violate("bad_connect_request", "tunnel", "proxy saw no complete CONNECT head")
         else:
             rq = pp.request
-            hp = f"{host}:{port}"
+            hp = f"{uhost}:{port}"
             pa = R.header_values(rq, "Proxy-Authorization")
             if rq["method"] != "CONNECT" or rq["target"] != hp or rq["version"] != "HTTP/1.1" or rq["problems"]:
                 res.violate("bad_connect_request", "tunnel", f"request line {rq['method']} {rq['target']} {rq['version']} {rq['problems']}, expected CONNECT {hp}")
@@ -389,7 +464,7 @@ def run(sc, choices=None):
                     op = origin_peers[-1] if origin_peers else None
                     if op is None or op.request is None:
                         res.violate("no_handshake_inside_tunnel", "tunnel", "origin saw no request")
-                    elif op.request["target"] != "/res?x=1" or R.header_values(op.request, "Host") != [host if sc.get("target_port") is None else f"{host}:{port}"]:
+                    elif op.request["target"] != "/res?x=1" or R.header_values(op.request, "Host") != [uhost if sc.get("target_port") is None else f"{uhost}:{port}"]:
                         res.violate("tunnel_handshake_not_addressed_to_origin", "tunnel",
                                     f"target {op.request['target']} Host {R.header_values(op.request, 'Host')}")
     else:
@@ -397,7 +472,11 @@ def run(sc, choices=None):
             res.violate("direct_connect_failed", ctx, f"outcome {outcome}")
         elif proxy_peers:
             res.violate("proxy_contacted_although_direct", ctx, "proxy was contacted")
-    res.sig = repr((scheme, src, np_src, rel, status if want_proxy else 0, bool(want_auth), _is_ip(host), sc.get("api")))
+    res.sig = repr((scheme, src, np_src, rel, status if want_proxy else 0, bool(want_auth), _is_ip(host), sc.get("api"), socks))
+    if socks:
+        for v in res.violations:
+            if not v["ctx"].startswith("socks"):
+                v["ctx"] = "socks/" + v["ctx"]
     res.nontrivial = src is not None
     if via_proxy:
         res.probes["via_proxy"] = 1
@@ -427,6 +506,7 @@ def _decide(scheme, host, sc, env, opt_np):
 def run_redirect(sc, env, opt_np, auth):
     """The first server answers with a redirect to another (scheme, host): every hop takes its own proxy decision."""
     res = Result()
+    socks = None  # (redirect scenarios use the HTTP proxy only)
     try:
         hops = [(sc["scheme"], sc["host"]), (sc["redirect"]["scheme"], sc["redirect"]["host"])]
         for s_, h_ in hops:
@@ -481,6 +561,8 @@ def run_redirect(sc, env, opt_np, auth):
             kw["http_proxy_host"], kw["http_proxy_port"] = PROXY_HOST, PROXY_PORT
             if auth:
                 kw["http_proxy_auth"] = tuple(auth)
+            if socks:
+                kw["proxy_type"] = socks
         if opt_np is not None:
             kw["http_no_proxy"] = list(opt_np)
         import ssl
